@@ -26,7 +26,7 @@ use teos::api::internal::InternalAPI;
 use teos::api::{http, tor::TorAPI};
 use teos::bitcoin_cli::BitcoindClient;
 use teos::carrier::Carrier;
-use teos::chain_monitor::ChainMonitor;
+use teos::chain_monitor::{ChainMonitor, TipTracker};
 use teos::config::{self, AuthMethod, Config, Opt};
 use teos::dbm::DBM;
 use teos::gatekeeper::Gatekeeper;
@@ -328,7 +328,13 @@ async fn main() {
 
     // The ordering here actually matters. Listeners are called by order, and we want the gatekeeper to be called
     // first so it updates the users' states and both the Watcher and the Responder operate only on registered users.
-    let listener = &(gatekeeper, &(watcher.clone(), responder));
+    // The tip tracker goes last: it records a block once everybody else has processed it.
+    let processed_tip = Arc::new(Mutex::new(tip.header.block_hash()));
+    let tip_tracker = TipTracker(processed_tip.clone());
+    let listener = &(
+        gatekeeper,
+        &(watcher.clone(), &(responder, &tip_tracker)),
+    );
     let cache = &mut UnboundedCache::new();
     let spv_client = SpvClient::new(tip, poller, cache, listener);
     let mut chain_monitor = ChainMonitor::new(
@@ -339,7 +345,8 @@ async fn main() {
         shutdown_signal_cm,
         bitcoind_reachable.clone(),
     )
-    .await;
+    .await
+    .track_processed_tip(processed_tip);
 
     // Get all the components up to date if there's a backlog of blocks
     chain_monitor.poll_best_tip().await;
